@@ -16,3 +16,7 @@ check("C17", "fault_enumeration",
       "The enumerated fault is the holder's death point: the holder is stopped right after its j-th backend operation for every j of the acquire and of ≥2 steady-state heartbeat rounds (all later operations of that actor fail without effect), under scheduler-controlled interleavings with 0..5 observers and idle previous holders, in a synctest bubble. Oracles on the virtual clock: every IsStale call that begins >2 periods after the last stamp must return true; no true while every stamp in effect is ≤2 periods old; ReleaseIfStale + TryLock then succeed. Live clause: holds of 1..500 periods with IsStale/ReleaseIfStale/TryLock(/override) pollers — never stale, never released, never taken over.",
       "Trusted: synctest bubble semantics, the re-stamper (filesystem clock = process clock), ext4. The 'under concurrent I/O load' real-time clause is not decided (virtual time has zero scheduling latency by construction; gate delay ≤5 ms per operation).",
       "fault enumeration (death after op j) + scheduler-controlled interleavings, online stamp/IsStale oracle on a virtual clock", "DESIGN.md §4 C17")
+check("C04", "exploration",
+      "Hostile-input exploration with three monitors per execution: (O1) bit-for-bit snapshot of everything outside the tree before/after, (O2) online physical-containment check of every successful mutating backend operation (parent resolved with EvalSymlinks before the op runs), (O3/O4) post-conditions on nil results and on pattern-protected entries; trees decorated with all link classes (inside/outside, relative/absolute, loops, self, dangling, chains, root-is-link), 9 entry points, both backends.",
+      "Trusted: the snapshot walker (Lstat, never follows links), filepath.EvalSymlinks. Runs as root, so read-only modes do not restrict. Root-is-link: the link target's content is a don't-care region.",
+      "runtime monitor at the afero boundary + sandbox snapshot diff over generated trees with symlinks", "DESIGN.md §4 C04")
